@@ -104,8 +104,9 @@ class MAUPITILinear(nn.Linear, MAUPITIModule):
         # Initialize the zero_point to `self.add_bias`
         with torch.no_grad():
             if not self.last_layer:
+                in_offset = -2 ** (self.in_quantizer.precision - 1)
                 self._zero_point = (self.add_bias + (self.clip_inf * 2**self.shift) -
-                                    self.clip_inf * self.scale *
+                                    in_offset * self.scale *
                                     torch.sum(self.weight, dim=1
                                               ).view(1, self.out_features))
             else:
